@@ -42,6 +42,20 @@ type hint subscripted by one or more :mod:`beartype.vale` validators.
 '''
 
 
+CODE_PEP593_VALIDATOR_PITH_ASSIGN = '''
+{indent_curr}    # Localize this pith to a local variable. This test is always true.
+{indent_curr}    ({pith_curr_assign_expr}) is {pith_curr_var_name} and'''
+'''
+:pep:`593`-compliant code snippet assigning the current pith to a local variable
+when the **metahint** (i.e., first child type hint) subscripting a
+obj:`typing.Annotated` type hint is ignorable *and* the expression yielding the
+current pith is *not* already a simple Python identifier. Validator code
+requires the current pith to be a simple identifier (e.g., to both suffix that
+identifier into the name of another local variable *and* avoid operator
+precedence issues when embedding that expression in arbitrary tests).
+'''
+
+
 CODE_PEP593_VALIDATOR_IS = '''
 {indent_curr}    # True only if this pith satisfies this caller-defined
 {indent_curr}    # validator of this annotated metahint.
@@ -66,6 +80,8 @@ means of accomplishing this, this approach is the optimally efficient.
 # This is an absurd micro-optimization. *fight me, github developer community*
 CODE_PEP593_VALIDATOR_IS_format: CallableStrFormat = (
     CODE_PEP593_VALIDATOR_IS.format)
+CODE_PEP593_VALIDATOR_PITH_ASSIGN_format: CallableStrFormat = (
+    CODE_PEP593_VALIDATOR_PITH_ASSIGN.format)
 CODE_PEP593_VALIDATOR_METAHINT_format: CallableStrFormat = (
     CODE_PEP593_VALIDATOR_METAHINT.format)
 CODE_PEP593_VALIDATOR_SUFFIX_format: CallableStrFormat = (
